@@ -176,38 +176,48 @@ def resolveType (d : Doc) (t : String) : String × Option Ns :=
 /-- `as_rust_type` over the generated builtin table -/
 def asRustType (d : Doc) (t : String) : FType :=
   let (l, p) := splitType t
-  match Tables.builtinTable.find? (fun kv => kv.1 == l) with
-  | some kv => (ftypeOfName kv.2).getD .string
-  | none => .other (xmlNameToRustName l) ((p.bind (lookupNs d)).map (·.rustModName))
-
-/-- `add_namespace_reference` -/
-def addNamespaceReference (abbr url : String) : NM Unit := do
-  if abbr.isEmpty || url.isEmpty then return
-  if Tables.wellKnownNamespaces.contains url then return
-  let d ← getDoc
-  if (lookupNs d abbr).isSome then return
-  match d.namespaces.find? (fun ns => ns.uri == url) with
-  | some existing => modifyDoc fun d => { d with lookup := d.lookup ++ [(abbr, existing)] }
+  -- a prefix bound to one of the schema's own namespaces names a user type, whatever its local name
+  match (p.bind (lookupNs d)).map (·.rustModName) with
+  | some m => .other (xmlNameToRustName l) (some m)
   | none =>
-    let ns := mkNs url d.namespaces
-    modifyDoc fun d => { d with lookup := d.lookup ++ [(abbr, ns)], namespaces := d.namespaces ++ [ns] }
+    match Tables.builtinTable.find? (fun kv => kv.1 == l) with
+    | some kv => (ftypeOfName kv.2).getD .string
+    | none => .other (xmlNameToRustName l) none
+
+/-- `add_namespace_reference` (it cannot fail: a pure document transformer) -/
+def Doc.addNamespaceReference (d : Doc) (abbr url : String) : Doc :=
+  if abbr.isEmpty || url.isEmpty then d
+  else if Tables.wellKnownNamespaces.contains url then d
+  else if (lookupNs d abbr).isSome then d
+  else match d.namespaces.find? (fun ns => ns.uri == url) with
+    | some existing => { d with lookup := d.lookup ++ [(abbr, existing)] }
+    | none =>
+      let ns := mkNs url d.namespaces
+      { d with lookup := d.lookup ++ [(abbr, ns)], namespaces := d.namespaces ++ [ns] }
+
+def addNamespaceReference (abbr url : String) : NM Unit :=
+  modifyDoc fun d => d.addNamespaceReference abbr url
 
 /-- `collect_namespaces_on_node` -/
-def collectNamespacesOnNode (node : XNode) : NM Unit := do
-  for (p, u) in node.nss do
-    match p with
-    | some a => addNamespaceReference a u
-    | none => pure ()
+def Doc.collectNamespaces (d : Doc) (nss : List (Option String × String)) : Doc :=
+  nss.foldl (fun d pu => match pu.1 with
+    | some a => d.addNamespaceReference a pu.2
+    | none => d) d
+
+def collectNamespacesOnNode (node : XNode) : NM Unit :=
+  modifyDoc fun d => d.collectNamespaces node.nss
 
 /-- `switch_to_target_namespace` -/
-def switchToTargetNamespace (ns : String) : NM Unit := do
-  let d ← getDoc
-  if !(d.targetNamespaces.any (fun t => t.uri == ns)) then
+def Doc.switchToTargetNamespace (d : Doc) (ns : String) : Doc :=
+  if d.targetNamespaces.any (fun t => t.uri == ns) then d
+  else
     let tns := match d.namespaces.find? (fun n => n.uri == ns) with
       | some n => n
       | none => mkNs ns d.namespaces
-    modifyDoc fun d => { d with targetNamespaces := d.targetNamespaces ++ [tns],
-                                namespaces := d.namespaces ++ [tns], current := some tns }
+    { d with targetNamespaces := d.targetNamespaces ++ [tns], namespaces := d.namespaces ++ [tns], current := some tns }
+
+def switchToTargetNamespace (ns : String) : NM Unit :=
+  modifyDoc fun d => d.switchToTargetNamespace ns
 
 def extendNoDuplicates (me other : List Ns) : List Ns :=
   other.foldl (fun acc x => if acc.contains x then acc else acc ++ [x]) me
@@ -233,6 +243,24 @@ def liftOpt {α : Type} (o : Option α) (e : Err) : NM α :=
 def okOrNone {α : Type} (x : NM α) : NM (Option α) :=
   tryCatch (x >>= fun a => pure (some a)) (fun e => if e == Err.outOfFuel then throw e else pure none)
 
+/-! The traversal of `import_sequence_node_fields`, separated from the reading of each member: the
+    member sites (node and its ancestors, nearest first) of the particle `node`, in document order.
+    Nested `sequence`/`choice` particles are flattened; attribute declarations are skipped. -/
+mutual
+def memberSites (node : XNode) (anc : List XNode) : List (XNode × List XNode) :=
+  match node with
+  | .elem t a n tx kids => memberSitesList kids (.elem t a n tx kids :: anc)
+  | .other => []
+def memberSitesList (kids : List XNode) (anc : List XNode) : List (XNode × List XNode) :=
+  match kids with
+  | [] => []
+  | k :: ks =>
+    (if !k.isElem then []
+     else if k.tag == "choice" || k.tag == "sequence" then memberSites k anc
+     else if k.tag == "attribute" || k.tag == "attributeGroup" || k.tag == "anyAttribute" then []
+     else [(k, anc)]) ++ memberSitesList ks anc
+end
+
 /-- `ComponentKind`: the symbol space a name is looked up in -/
 inductive Kind where
   | type | element | any
@@ -251,12 +279,16 @@ def Kind.matchesTag : Kind → String → Bool
   | .element, t => t == "element"
   | .any, _ => true
 
+/-- the first half of `find_node_by_xml_name`: among the nodes read so far (own, then the importer's) -/
+def lookupRead (d : Doc) (xmlName : String) (ns : Option Ns) (kind : Kind) : Option RNode :=
+  (d.nodes ++ d.knownNodes).find? (fun n => n.rtype.xmlName == some xmlName && n.inNs == ns && kind.matchesType n.rtype)
+
 /-! ### nodes (node.rs, structures/*, field.rs) — one mutual, fuel-driven block -/
 
 mutual
 
 /-- `RustNode::try_from_node` -/
-partial def tryFromNode (node : XNode) (ctx : Ctx) : Nat → NM RNode
+def tryFromNode (node : XNode) (ctx : Ctx) : Nat → NM RNode
   | 0 => throw .outOfFuel
   | fuel + 1 => do
     if !node.isElem then throw .notAnElement
@@ -271,11 +303,11 @@ partial def tryFromNode (node : XNode) (ctx : Ctx) : Nat → NM RNode
     pure { rtype := rt, inNs := d.current }
 
 /-- `RustDocument::find_node_by_xml_name` with its tree-search fallback -/
-partial def findNodeByXmlName (ctx : Ctx) (xmlName : String) (ns : Option Ns) (kind : Kind) : Nat → NM (Option RNode)
+def findNodeByXmlName (ctx : Ctx) (xmlName : String) (ns : Option Ns) (kind : Kind) : Nat → NM (Option RNode)
   | 0 => throw .outOfFuel
   | fuel + 1 => do
     let d ← getDoc
-    match (d.nodes ++ d.knownNodes).find? (fun n => n.rtype.xmlName == some xmlName && n.inNs == ns && kind.matchesType n.rtype) with
+    match lookupRead d xmlName ns kind with
     | some n => pure (some n)
     | none =>
       -- try_to_find_node_by_xml_name_in_xml_doc: the first global component (child of a `schema`) in
@@ -298,7 +330,7 @@ partial def findNodeByXmlName (ctx : Ctx) (xmlName : String) (ns : Option Ns) (k
       | some (n, anc) => okOrNone (tryFromNode n { ctx with ancestors := anc } fuel)
 
 /-- `Field::try_from_node` -/
-partial def fieldFromNode (node : XNode) (ctx : Ctx) : Nat → NM Field
+def fieldFromNode (node : XNode) (ctx : Ctx) : Nat → NM Field
   | 0 => throw .outOfFuel
   | fuel + 1 => do
     if !node.isElem then throw .notAnElement
@@ -338,24 +370,18 @@ partial def fieldFromNode (node : XNode) (ctx : Ctx) : Nat → NM Field
                isChoice := occ.isChoice, isAny := false }
 
 /-- `import_sequence_node_fields` (also used for `choice`, and handed an `<extension>`) -/
-partial def importSequence (node : XNode) (ctx : Ctx) (acc : List Field) : Nat → NM (List Field)
+def importSequence (node : XNode) (ctx : Ctx) (acc : List Field) : Nat → NM (List Field)
   | 0 => throw .outOfFuel
   | fuel + 1 => do
+    -- the members are read in document order; each reading may change the document (lookups)
     let mut acc := acc
-    let ctx' := { ctx with ancestors := node :: ctx.ancestors }
-    for child in node.elemKids do
-      let t := child.tag
-      if t == "choice" || t == "sequence" then
-        acc ← importSequence child ctx' acc fuel
-      else if t == "attribute" || t == "attributeGroup" || t == "anyAttribute" then
-        pure ()
-      else
-        let f ← fieldFromNode child ctx' fuel
-        acc := acc ++ [f]
+    for (child, anc) in memberSites node ctx.ancestors do
+      let f ← fieldFromNode child { ctx with ancestors := anc } fuel
+      acc := acc ++ [f]
     pure acc
 
 /-- `import_extension_fields`; `node` is the `complexContent` -/
-partial def importExtension (node : XNode) (ctx : Ctx) : Nat → NM (List Field)
+def importExtension (node : XNode) (ctx : Ctx) : Nat → NM (List Field)
   | 0 => throw .outOfFuel
   | fuel + 1 => do
     match node.kids.find? (fun n => n.isElem && n.tag == "extension") with
@@ -381,7 +407,7 @@ partial def importExtension (node : XNode) (ctx : Ctx) : Nat → NM (List Field)
       pure fields
 
 /-- `ComplexProps::try_from_node`; `ctx.ancestors` are the ancestors of `node` -/
-partial def complexFromNode (node : XNode) (ctx : Ctx) : Nat → NM CProps
+def complexFromNode (node : XNode) (ctx : Ctx) : Nat → NM CProps
   | 0 => throw .outOfFuel
   | fuel + 1 => do
     collectNamespacesOnNode node
@@ -414,7 +440,7 @@ partial def complexFromNode (node : XNode) (ctx : Ctx) : Nat → NM CProps
     pure result
 
 /-- `ElementProps::try_from_node` -/
-partial def elementFromNode (node : XNode) (ctx : Ctx) : Nat → NM EProps
+def elementFromNode (node : XNode) (ctx : Ctx) : Nat → NM EProps
   | 0 => throw .outOfFuel
   | fuel + 1 => do
     collectNamespacesOnNode node
@@ -430,7 +456,7 @@ partial def elementFromNode (node : XNode) (ctx : Ctx) : Nat → NM EProps
       | none => pure { xmlName := name, etype := .unsupported }
 
 /-- `SimpleProps::try_from_node` (restriction / list / union) -/
-partial def simpleFromNode (node : XNode) : NM SProps := do
+def simpleFromNode (node : XNode) : NM SProps := do
   collectNamespacesOnNode node
   let name ← liftOpt (node.attr? "name") .attributeMissing
   let comment := parseComment node
@@ -603,7 +629,7 @@ def nodeFuel : Nat := 100000
 mutual
 
 /-- `read_xml_internal` -/
-partial def readXmlInternal (files : List XFile) (fileName : String) (known : List Ns) (knownNodes : List RNode) :
+def readXmlInternal (files : List XFile) (fileName : String) (known : List Ns) (knownNodes : List RNode) :
     Nat → FM Doc
   | 0 => throw .outOfFuel
   | fuel + 1 => do
@@ -614,7 +640,7 @@ partial def readXmlInternal (files : List XFile) (fileName : String) (known : Li
     -- init_with_known_namespaces: collect the root element's namespaces
     let d0 : Doc := { namespaces := known, knownNodes := knownNodes }
     let d0 := match tops.find? (·.isElem) with
-      | some root => (runNM (collectNamespacesOnNode root) d0).2
+      | some root => d0.collectNamespaces root.nss
       | none => d0
     modify fun s => { s with processed := fileName :: s.processed }
     let allElems := allElemsOf tops []
@@ -624,13 +650,13 @@ partial def readXmlInternal (files : List XFile) (fileName : String) (known : Li
     pure d
 
 /-- `read` + `read_wsdl` + `read_xsd` -/
-partial def readTop (files : List XFile) (file : XFile) (allElems : List (XNode × List XNode))
+def readTop (files : List XFile) (file : XFile) (allElems : List (XNode × List XNode))
     (node : XNode) (d : Doc) : Nat → FM Doc
   | 0 => throw .outOfFuel
   | fuel + 1 => do
     if !node.isElem then return d
     let d := match node.attr? "targetNamespace" with
-      | some tns => (runNM (switchToTargetNamespace tns) d).2
+      | some tns => d.switchToTargetNamespace tns
       | none => d
     match node.tag with
     | "schema" => readXsd files file allElems node [] d fuel
@@ -671,7 +697,7 @@ partial def readTop (files : List XFile) (file : XFile) (allElems : List (XNode 
     | _ => pure d
 
 /-- `read_xsd`; `anc` are the ancestors of the `schema` node -/
-partial def readXsd (files : List XFile) (file : XFile) (allElems : List (XNode × List XNode))
+def readXsd (files : List XFile) (file : XFile) (allElems : List (XNode × List XNode))
     (schema : XNode) (anc : List XNode) (d : Doc) : Nat → FM Doc
   | 0 => throw .outOfFuel
   | fuel + 1 => do
